@@ -106,6 +106,20 @@ def concLine (st : ConcRun) (lineNo : Nat) (line : String) : Except String (Conc
          then [s!"PROPFAIL C09 cond_never_returns_held_version {tag} calls={get "calls"}"] else []) ++
         (if (get "unsynced").toNat?.getD 0 == 0 then [] else
           [s!"PROPFAIL C06 synced_before_return {tag} unsynced={get "unsynced"} (a call returned before a Sync that began after its record was written had completed)"]) ++
+        -- a caller without a grant, making the same requests at the same time, is refused every time
+        (if (get "intruder_leaks").toNat?.getD 0 == 0 then [] else
+          [s!"PROPFAIL C01 denied_noeffect {tag} intruder_leaks={get "intruder_leaks"} (a caller with no grant on the names in play was answered with something other than access-denied while others made the same requests)"]) ++
+        -- at quiescence the file holds what the running server serves
+        (match parseMem (get "memfinal"), final with
+         | some m, some f => if m == memOf f then [] else
+             [s!"PROPFAIL C03 acknowledged_survives {tag} after the concurrent calls the file and the served state differ: file={get "final"} served={get "memfinal"}",
+              s!"PROPFAIL C04 mem_eq_disk {tag} file={get "final"} served={get "memfinal"}"]
+         | _, _ => []) ++
+        -- when a history is not linearizable but is once its conditional gets are left out, they are the culprits
+        (if ok || !(calls.any fun c => match c.op with | .getCond _ _ => true | _ => false) then [] else
+          let rest := calls.filter fun c => match c.op with | .getCond _ _ => false | _ => true
+          if (linSearch rest.toArray final 0 init {} 0).1 then
+            [s!"PROPFAIL C09 cond_linearizable {tag} calls={get "calls"}"] else []) ++
         (if final.isNone then [s!"PROPFAIL C14 final_state_readable {tag} final={get "final"}"] else []) ++
         (if auditOK then [] else [s!"PROPFAIL C06 concurrent_records_whole {tag} audit={get "audit"}", s!"PROPFAIL C14 concurrent_records_whole {tag} audit={get "audit"}"])
       let nthreads := (calls.map (·.thread)).foldl max 0 + 1
